@@ -22,7 +22,7 @@ import (
 // Event is one scheduled network / process fault.
 type Event struct {
 	At    time.Duration `json:"at"`
-	Kind  string        `json:"kind"`            // partition, heal, crash, restart, delay, loss
+	Kind  string        `json:"kind"`            // partition, cutlink (Node - Group[0]), heal, crash, restart, delay, loss
 	Group []int         `json:"group,omitempty"` // partition: instances on side A (the rest is side B)
 	Node  int           `json:"node,omitempty"`
 	Keep  bool          `json:"keep,omitempty"` // restart with the data directory
@@ -383,6 +383,16 @@ func Run(s *scen.Scenario, cs *Spec, dir string) *scen.Result {
 				}
 				n.mu.Unlock()
 				refreshViews()
+			case "cutlink":
+				// one link fails while both ends still reach the others: membership is unaffected (indirect probes),
+				// gossip between the two has to travel through a third instance
+				a, b := ev.Node, ev.Group[0]
+				if a > b {
+					a, b = b, a
+				}
+				n.mu.Lock()
+				n.cut[[2]int{a, b}] = true
+				n.mu.Unlock()
 			case "heal":
 				n.mu.Lock()
 				n.cut = map[[2]int]bool{}
